@@ -316,6 +316,40 @@ func tamperTable() []tamper {
 			b.B.Number--
 			return "number-1 with a recomputed (valid) hash"
 		}},
+		// a self-consistent block for ANOTHER position (added after seed C02-i): the first block of a chain, claimed on a chain
+		// that already has blocks; a far-away number. Old root, diff and new root stay those of the valid next block, so only
+		// the linkage check can reject it.
+		tamper{name: "succession/genesis-claim", reseal: "block", apply: func(t *rapid.T, b *gen.Block, u *gen.Universe) string {
+			if b.B.Number == 0 {
+				return ""
+			}
+			b.B.Number = 0
+			b.B.ParentHash = new(felt.Felt)
+			return "block claims number 0 and a zero parent hash (a genesis block on a non-empty chain), hash recomputed"
+		}},
+		tamper{name: "succession/number-zero", reseal: "block", apply: func(t *rapid.T, b *gen.Block, u *gen.Universe) string {
+			if b.B.Number == 0 {
+				return ""
+			}
+			b.B.Number = 0
+			return "block claims number 0 with its real parent hash, hash recomputed"
+		}},
+		tamper{name: "succession/far-number", reseal: "block", apply: func(t *rapid.T, b *gen.Block, u *gen.Universe) string {
+			d := uint64(rapid.IntRange(2, 5).Draw(t, "far"))
+			if rapid.Bool().Draw(t, "farDown") && b.B.Number >= d {
+				b.B.Number -= d
+			} else {
+				b.B.Number += d
+			}
+			return "block number moved by 2-5 with a recomputed (valid) hash"
+		}},
+		tamper{name: "succession/zero-parent-hash", reseal: "block", apply: func(t *rapid.T, b *gen.Block, u *gen.Universe) string {
+			if b.B.Number == 0 || b.B.ParentHash.IsZero() {
+				return ""
+			}
+			b.B.ParentHash = new(felt.Felt)
+			return "parent hash set to zero with a recomputed (valid) hash"
+		}},
 		tamper{name: "succession/parent-hash", reseal: "block", apply: func(t *rapid.T, b *gen.Block, u *gen.Universe) string {
 			b.B.ParentHash = bump(b.B.ParentHash)
 			return "parent hash changed with a recomputed (valid) hash"
